@@ -17,7 +17,7 @@ META = {
                 tech='AST term-table matching, must-pass-through (normaliser) dataflow, closed-producer rule at unchecked constructor sites'),
     'C02': dict(text=GEN % 'operand order of composition lambdas, division = product with inverse, structured-inverse tables, power/prod folds, information dependence of the logarithm used by twist composition, no hidden state in the classes involved (R15, R16, R17, R7, R9)', sec='4 C02',
                 tech='AST term/word normalisation against mathematical tables, abstract interpretation of operator dispatch'),
-    'C03': dict(text='static analysis of the structural core of the property only: abstract dispatch of every documented argument form of the Exp constructors to the whole-argument or per-element route; the general branch of the SO(3) logarithm composed with Rodrigues\' formula is the identity term by term; twist=True/False result pairs are vee/hat of each other; series terms of Ginv; closed forms of rodrigues/trexp/trexp2; half-turn axis depends on off-diagonals; routing with options. NOT decided: every accuracy statement (thresholds, behaviour near 0 and pi, 1e-7 agreement, finiteness, the scipy-based 2D logarithm).', sec='5',
+    'C03': dict(text='static analysis of the structural core of the property only: abstract dispatch of every documented argument form of the Exp constructors to the whole-argument or per-element route; the general branch of the SO(3) logarithm composed with Rodrigues\' formula is the identity term by term; twist=True/False result pairs are vee/hat of each other; series terms of Ginv; closed forms of rodrigues/trexp/trexp2; half-turn axis depends on off-diagonals; routing with options; the division by sin(theta) lies behind a test of the divisor itself and behind the half-turn test (the identity test does not exclude acos(..) == 0: this found nan logarithms below 1e-8 rad); the planar logarithm is the closed form (atan2 through the writer table of rot2, theta V^-1 t divided by theta only under a test of theta) and never a general matrix logarithm (complex at a half turn: found and repaired); block tables of rt2tr/Ab2M/r2t/t2r/tr2rt. NOT decided: the accuracy statements as numbers (thresholds, 1e-7 agreement).', sec='5',
                 tech='abstract interpretation of argument-form guards, writer/reader composition over polynomial normal forms, term tables, information-dependence rule'),
     'C04': dict(text=GEN % 'sibling constructors reduce to the same primitive, conversion routing, double-cover equality form, r2q composed with the q2r table, dual-quaternion pair integrity (R13, R16, R17, R19)', sec='4 C04',
                 tech='sibling cross-check over resolved callees, term tables, symbolic writer/reader composition over polynomial normal forms'),
@@ -25,29 +25,29 @@ META = {
                 tech='rotation-word abstract evaluation, writer/reader composition over polynomial normal forms (no evaluation, no solver), option-threading dataflow, parity analysis'),
     'C06': dict(text=GEN % 'lift-multiply-project and sandwich routes, operand integrity in the array branches, pose-left/point-right operand roles of every @, the unit-dual-quaternion route composed in the non-commutative quaternion algebra equals r p r~ + t, no hidden state in the classes involved (R16, R22, R9, R2, R1)', sec='4 C06',
                 tech='routing patterns over resolved calls, reaching-definition check of operands'),
-    'C07': dict(text=GEN % 'predicate atoms (R4), validation dominates every store into data (R5), constructors define state on every exit (R3), dual-mode transl/transl2 calls reached only with a vector argument (R20), no silent None (R2)', sec='4 C07',
+    'C07': dict(text=GEN % 'predicate atoms (R4), validation dominates every store into data (R5), constructors define state on every exit (R3), dual-mode transl/transl2 calls reached only with a vector argument (R20), caller data reaches no construction that skips the check (R15c transporters), a constructor argument that may be left out is used as a value only where it is known to be given (R10m), no silent None (R2)', sec='4 C07',
                 tech='pattern-matched predicate atoms, must-pass-through dataflow on the CFG, typestate of constructors'),
     'C08': dict(text='static analysis: the finite operator x class x class table (10 operators, 21 kinds) is enumerated completely and each cell is decided by abstract interpretation of the resolved dunder bodies over the class-kind lattice, against the documented table; cells that depend on numeric shape tests are reported as undecided. Plus R6d (every value return of the pose x array branch is guarded by the pose dimension, which is what rejects coefficient arrays forwarded by unguarded reflected operators) and R2/R1/R7 over every binary dunder.', sec='4 C08',
                 tech='abstract interpretation of operator dispatch (MRO, reflected methods, three-valued isinstance) over class kinds; exhaustive table'),
-    'C09': dict(text=GEN % 'four-case broadcasting structure of the two helpers, every vectorised operator reaches a helper, length guards and element kinds in per-value accessors, branch agreement, comparison/arithmetic operators return the helper result, helper calls receive (left, right) in order (R7o), unit conversion reaches scalar and vector motion parameters alike (R10u) (R7, R8)', sec='4 C09',
+    'C09': dict(text=GEN % 'four-case broadcasting structure of the two helpers, every vectorised operator reaches a helper, length guards and element kinds in per-value accessors, branch agreement, accessor slot table, element slices per concrete class, results built from the values of the receiver, two-operand zip under a length-equality fact (R8z), comparison/arithmetic operators return the helper result, helper calls receive (left, right) in order (R7o), unit conversion reaches scalar and vector motion parameters alike (R10u) (R7, R8)', sec='4 C09',
                 tech='guard-fact (must) dataflow on the CFG, element-kind abstract domain, call-graph reachability'),
     'C10': dict(text='static analysis: list equivalence by delegation -- index/slice delegate to list or slice.indices, class-equality and single-value guards dominate every list mutation, no list primitive overridden below UserList, Empty/Alloc/pop shapes; with CPython list/UserList trusted this implies equality with a Python list for every operation history.', sec='4 C10',
                 tech='dominance (must-fact) analysis of guards before mutations, who-defines check over the MRO, delegation patterns'),
     'C11': dict(text=GEN % 'range guard on every value path, routing, shortest-arc block ordering, endpoint returns, norm-preserving return forms, linear translation form, the shortest test on every path to the angle, shape typestate of the branches (R14, R16, R20, R2)', sec='4 C11',
                 tech='must-pass-through and ordering analysis on the CFG, return-form classification'),
-    'C12': dict(text=GEN % 'product / conjugate / matrix / rate / dual-product term tables, power fold shape, sign dependence of the quaternion logarithm, operand order of the broadcasting helper calls (R16, R15, R17, R7o)', sec='4 C12',
+    'C12': dict(text=GEN % 'product / conjugate / matrix / rate / dual-product / minimal-vector-product term tables, sum and difference forms, power fold shape, sign dependence of the logarithm every quaternion class resolves to, operand order of the broadcasting helper calls (R16, R15, R17, R7o)', sec='4 C12',
                 tech='polynomial/term-table normalisation of literal matrices and vector expressions'),
-    'C13': dict(text=GEN % 'skew/vex/skewa/vexa writer-reader tables, adjoint/Jacobian blocks, differential-motion group words, dtype source of allocated results (R16, R1, R11a)', sec='4 C13',
+    'C13': dict(text=GEN % 'skew/vex/skewa/vexa writer-reader tables, adjoint/Jacobian blocks in 3D and the SE(2) adjoint table with each shape tested once, differential-motion group words, closed group inverse/power, dtype source of allocated results (R16, R7, R15c, R1, R11a)', sec='4 C13',
                 tech='term tables, group-word abstract evaluation (inverse/transposition/product order)'),
-    'C14': dict(text=GEN % 'normaliser forms and selectors, every stacked column normalised after the cross products, routing of norm()/unit (R16, R13, R1)', sec='4 C14',
+    'C14': dict(text=GEN % 'normaliser forms and selectors, every stacked column normalised after the cross products, planar frame table of trnorm2, definitions of the zero/unit predicates the selectors branch on, routing of norm()/unit (R16, R13, R4, R1)', sec='4 C14',
                 tech='return-form classification, must-pass-through (unitvec) on constructed columns'),
-    'C15': dict(text=GEN % 'normaliser dominance for every array_like parameter, dimension enforced, unit/order option threading with single conversion, else-raise, no unconstrained-length vector reaches a broadcasting slice store (R10, R2, R3)', sec='4 C15',
+    'C15': dict(text=GEN % 'normaliser dominance for every array_like parameter (a raw argument as the return value included), dimension enforced, the contract of the normaliser root getvector itself (conversion dtype, default, length test before every return: R10g), unit/order option threading with single conversion, sibling arms forward the same options (R10c), None-belief (R10m), else-raise, no unconstrained-length vector reaches a broadcasting slice store (R10, R2, R3)', sec='4 C15',
                 tech='taint/must-pass-through dataflow from documented array_like parameters, option-threading and double-conversion analysis'),
-    'C16': dict(text=GEN % 'no numeric-only primitive on symbol-tainted values in SymPy-marked call trees; object-dtype-aware conversion in the vector normaliser; shared SO/SE methods treat elements uniformly; closed-form determinant equals the Leibniz expansion (R11, R18, R16)', sec='4 C16',
+    'C16': dict(text=GEN % 'no numeric-only primitive on symbol-tainted values in SymPy-marked call trees; object-dtype-aware conversion in the vector normaliser; a vectorize kernel returns one kind on every path reachable with SymPy available (R11v); shared SO/SE methods treat elements uniformly; closed-form determinant equals the Leibniz expansion (R11, R18, R16)', sec='4 C16',
                 tech='interprocedural taint analysis from :SymPy: supported marks to numeric-only sinks'),
     'C17': dict(text='static analysis: whole-package may-alias effect analysis with function summaries to a fixpoint; no in-place write can reach storage that may alias a parameter, the receiver of a non-mutating method or module state; random sources only in the documented random constructors. This is the structural content of the property; nothing is executed.', sec='4 C17',
                 tech='interprocedural may-alias / effect (purity) dataflow analysis'),
-    'C18': dict(text=GEN % 'twist constructor/accessor tables, unit conversion reaches every use of theta in exp, reflected scalar product (R16, R10, R6, R8)', sec='4 C18',
+    'C18': dict(text=GEN % 'twist constructor/accessor tables, unit conversion reaches every use of theta in exp, element slices of the prismatic/revolute/unit predicates per concrete class, definitions of the zero/unit predicates, reflected scalar product (R16, R10, R6, R8, R4)', sec='4 C18',
                 tech='term tables, must-pass-through (getunit) dataflow, operator table'),
     'C19': dict(text=GEN % 'one moment convention and one plane convention across writers and readers, sign-invariance of the parallelism test, point/column branch agreement with the caller tolerance, line-plane intersection point and parameter and line-line distance composed with the class conventions in component-wise vector algebra, no hidden state (R16, R23, R10r, R9)', sec='4 C19',
                 tech='term tables with sign (parity) analysis under negation of an operand'),
